@@ -27,7 +27,7 @@ for p in benign/${1:-*}/*/patch.diff; do
     o=$("$BIN" -property ${BENIGN_PROPERTY:-all} -tier quick -repo "$SCR/repo" -verif "$SCR/verif" 2>&1); rc=$?
     tot=$((tot+1))
     if [ $rc -eq 0 ] && ! echo "$o" | grep -q '^VIOLATION'; then res="silent"; silent=$((silent+1))
-    else res="ALARM: $(echo "$o" | grep -a -m3 -E '^  (VIOLATED|UNDECIDED)' | cut -c1-220 | sed 's/\\/\\\\/g; s/"/\\"/g' | tr '\n\t' '; ')"; fi
+    else res="ALARM: $(echo "$o" | grep -a -m3 -E '^  (VIOLATED|UNDECIDED)' | cut -c1-220 | iconv -c -f utf-8 -t utf-8 | sed 's/\\/\\\\/g; s/"/\\"/g' | tr '\n\t' '; ')"; fi
     (cd "$SCR/repo" && git checkout -q -- . && git clean -qfd)
   fi
   [ $first -eq 0 ] && echo ',' >> "$out"; first=0
